@@ -61,7 +61,8 @@ def gen_concat_agg(tier, mod):
       yield {'args': [], 'self': o, 'env': {'hist': list(xs), 'json': json}, 'show': list(xs)}
 
 
-LISTS = ['[]', '[1]', '[2, 1]', '[3, 1, 2]', '["b", "a"]', '[1, 1]']
+LISTS = ['[]', '[1]', '[2, 1]', '[3, 1, 2]', '["b", "a"]', '[1, 1]', '[0]', '[0, 1, 0]', '["a", "", "b"]', '[""]',
+         '[false, true]']
 
 
 def gen_fn1(tier, mod):
@@ -126,4 +127,70 @@ UNITS = [
        ensures=["result == separator.join(str(x) for x in json.loads(array))"], native=gen_join),
   unit(F, 'AssembleRecord', props=['C20'], deductive=False, params=['field_value_list'],
        ensures=["json.loads(result) == dict(kv)"], native=gen_record),
+]
+
+
+# ---------------------------------------------------------------- registration table (exhaustive)
+import re
+
+SQLITE_BUILTIN = {'JSON_EXTRACT', 'JSON_GROUP_ARRAY', 'JSON_ARRAY_LENGTH', 'JSON_ARRAY', 'JSON_OBJECT', 'JSON_EACH',
+                  'COUNT', 'GROUP_CONCAT', 'PRINTF', 'MIN', 'MAX', 'CAST', 'DATE', 'JULIANDAY', 'SUM', 'AVG', 'CHAR',
+                  'SELECT', 'AS', 'DISTINCT', 'ABS', 'LENGTH', 'UPPER', 'LOWER', 'SUBSTR', 'REPLACE', 'ROUND', 'COALESCE',
+                  'IN', 'WITH', 'FROM', 'WHERE', 'UNION', 'T', 'N', 'INT64', 'TEXT', 'IF', 'IFNULL', 'TRIM', 'INSTR', 'JSON_VALID',
+                  'JSON_TYPE', 'JSON_QUOTE', 'JSON', 'TYPEOF', 'NULLIF', 'WHEN', 'CASE', 'THEN'}
+
+
+class Spy:
+  def __init__(self):
+    self.fn = {}
+
+  def create_function(self, name, arity, f):
+    self.fn[name.upper()] = arity
+
+  def create_aggregate(self, name, arity, cls):
+    self.fn[name.upper()] = arity
+
+
+def used_functions(mod):
+  from vlib import rt
+  d = rt.repo_module('compiler.dialects').SqLiteDialect()
+  lib = rt.repo_module('compiler.dialect_libraries.sqlite_library').library
+  used = {}
+  texts = list(d.BuiltInFunctions().values()) + list(d.InfixOperators().values()) + \
+      re.findall(r'SqlExpr\("([^"]*)"', lib)
+  for t in texts:
+    if not t:
+      continue
+    for m in re.finditer(r'([A-Za-z_][A-Za-z_0-9]*)\(', t):
+      name = m.group(1).upper()
+      # arity = number of top-level commas + 1 inside the call, when it can be read off the template
+      depth, n, j = 0, 1, m.end()
+      inner = ''
+      while j < len(t):
+        c = t[j]
+        if c == '(':
+          depth += 1
+        elif c == ')':
+          if depth == 0:
+            break
+          depth -= 1
+        elif c == ',' and depth == 0:
+          n += 1
+        inner += c
+        j += 1
+      used.setdefault(name, set()).add(None if inner.strip() in ('%s',) else (0 if not inner.strip() else n))
+  return used
+
+
+def gen_registration(tier, mod):
+  yield {'args': [Spy()], 'env': {'used': used_functions(mod), 'BUILTIN': SQLITE_BUILTIN}, 'show': 'spy connection'}
+
+
+UNITS += [
+  unit(F, 'ExtendConnectionWithLogicaFunctions', props=['C20'], deductive=False, params=['con'],
+       # every SQL function the SQLite dialect's templates and library call is a SQLite built-in or is
+       # registered, with the arity the template uses
+       ensures=["all(name in BUILTIN or name in con.fn for name in used)",
+                "all(a is None or con.fn[name] == -1 or a == con.fn[name] for name in used if name in con.fn for a in used[name])"],
+       native=gen_registration),
 ]
